@@ -828,7 +828,8 @@ fn oracle(s: &Sess, o: &mut Oracle) {
         }
     }
     // number of transfers: never more than max_transfer_count without carousel
-    if !s.car && !s.ticked && (ntr as u64) > s.maxtc {
+    // (max_transfer_count = 0 sends one transfer without B: transfer counting is C12's clause, not checked here)
+    if !s.car && !s.ticked && s.maxtc >= 1 && (ntr as u64) > s.maxtc {
         o.fail("too-many-transfers", &format!("{} transfers > max_transfer_count {} {}", ntr, s.maxtc, ctxs));
     }
 }
@@ -1179,8 +1180,9 @@ pub fn run(ctx: &mut Ctx, eng: &mut dyn Engine) {
                         eng.reset();
                         ctx.step(eng, &c.op());
                         ctx.step(eng, "benc readall");
+                        let cls = if len == 0 && (scheme == "raptorq" || scheme == "raptor") { "C20:empty-object-fec-buffer-vs-stream" } else { "C20:stream-ne-buffer-raw" };
                         ctx.oracle_fail(
-                            "C20:stream-ne-buffer-raw",
+                            cls,
                             &format!("datagrams (whole, FNV-64 each) from source `{}` differ from the buffer source for the same bytes although (SBN, ESI, source payload, flags) agree: {}", src, c.op()),
                         );
                         eng.reset();
